@@ -53,15 +53,31 @@ def main():
             continue
         meta = json.load(open(os.path.join(d, 'meta.json')))
         tmp = tempfile.mkdtemp(prefix='pyins_seeded_', dir='/tmp')
+        os.rmdir(tmp)
         try:
-            shutil.copytree('/repo/pyins', os.path.join(tmp, 'pyins'),
-                            ignore=shutil.ignore_patterns('__pycache__'))
-            p = subprocess.run(['patch', '-p1', '-s', '-i', os.path.join(d, 'patch.diff')],
+            # a scratch git worktree of /repo's HEAD (outside /repo and /verif), so that a
+            # change written against an earlier commit can be applied with a 3-way merge
+            subprocess.run(['git', '-C', '/repo', 'worktree', 'add', '-q', '--detach', tmp,
+                            'HEAD'], check=True, capture_output=True)
+            p = subprocess.run(['git', 'apply', '--3way', os.path.join(d, 'patch.diff')],
                                cwd=tmp, capture_output=True, text=True)
-            if p.returncode != 0:
-                db[sid] = dict(prop=meta['property'], status='PATCH-FAILED',
-                               first=p.stdout[-200:])
-                print(sid, 'PATCH-FAILED', p.stdout[-200:])
+            conflict = subprocess.run(['git', 'diff', '--name-only', '--diff-filter=U'],
+                                      cwd=tmp, capture_output=True, text=True).stdout.strip()
+            if p.returncode != 0 or conflict:
+                # the change overlaps a later fix: commit; fall back to the commit it was
+                # written against (recorded in meta.json) - only for properties whose check
+                # does not depend on that later fix
+                base = meta.get('base_commit') or meta['author'].split()[-1]
+                subprocess.run(['git', 'checkout', '-q', '--detach', '-f', base], cwd=tmp,
+                               capture_output=True)
+                p = subprocess.run(['git', 'apply', os.path.join(d, 'patch.diff')],
+                                   cwd=tmp, capture_output=True, text=True)
+                conflict = ''
+                db.setdefault(sid, {})['applied_on'] = base
+            if p.returncode != 0 or conflict:
+                db.setdefault(sid, {}).update(prop=meta['property'], rebase='PATCH-FAILED on '
+                                              'current HEAD: ' + (p.stderr or conflict)[-200:])
+                print(sid, 'PATCH-FAILED', (p.stderr or conflict)[-200:])
                 continue
             props = ALL if all_checks else [meta['property']]
             res = {}
@@ -75,7 +91,10 @@ def main():
             db[sid] = entry
             json.dump(db, open(store, 'w'), indent=1, sort_keys=True)
         finally:
+            subprocess.run(['git', '-C', '/repo', 'worktree', 'remove', '--force', tmp],
+                           capture_output=True)
             shutil.rmtree(tmp, ignore_errors=True)
+            subprocess.run(['git', '-C', '/repo', 'worktree', 'prune'], capture_output=True)
     with open(os.path.join(SEEDED, 'RESULTS.md'), 'w') as f:
         f.write("# Independently seeded changes vs. the quick checks\n\n"
                 "Each change was written by a fresh sub-agent that saw only the property "
